@@ -1,6 +1,6 @@
 (* C11 — property theorems only (2D Ewald: weights regenerated from ewald2d.py, typed contractions, half plane). *)
 From Coq Require Import List Ascii Bool ZArith Reals.
-From PyQMC Require Import gen.Ewald2d_Gen C11.Model C11.Proofs.
+From PyQMC Require Import base.Einsum gen.Ewald2d_Gen C11.Model C11.Proofs.
 Import ListNotations.
 
 (* exchanging the two particles of a pair flips the height difference: the reciprocal weight of the CURRENT source is even in it
